@@ -55,7 +55,9 @@ struct ClmRoundtrip : Family {
 			for (int t = 0; t < 50; ++t) {
 				nm = randName(r, 1, 8, false);
 				if (r.chance(1, 4) && nm.size() > 1) nm[1 + r.below(nm.size() - 1)] = '_'; // never first: harness-owned paths start with '_'
+				if (r.chance(1, 8) && nm.size() > 1) { static const char P[] = {'.', '-', ',', '+', '!', ' ', '.', '-'}; nm[1 + r.below(nm.size() - 1)] = P[r.below(8)]; } // characters that sort below '.'; a dot inside the base name
 				if (!names.empty() && r.chance(1, 3)) { const std::string& o = names[r.below(names.size())]; nm = (o.substr(0, 1 + r.below(o.size())) + randName(r, 1, 3, false)).substr(0, 8); }
+				if (r.chance(1, 8)) nm = digestTwin(names, r, 8); // different names with one 32-bit digest
 				bool clash = false;
 				for (auto& o : names) if (ref::nameEqualNoCase(o, nm)) clash = true;
 				if (!clash) break;
@@ -74,7 +76,7 @@ struct ClmRoundtrip : Family {
 			if (len > 100000) big = true;
 			static const char* EXT[] = {".wav", ".WAV", ".Wav", ".wAV"};
 			static const char* ODD[] = {".wave", ".w", "-", ".snd", ".WAVE"}; // "-" = no extension at all
-			w.set("name", nm).set("ext", r.chance(1, 12) ? ODD[r.below(5)] : EXT[r.below(4)]).set("dir", r.chance(1, 4) ? std::string("-") : "_w" + std::to_string(r.below(3))).set("cseed", hex64(r.next())).set("len", len)
+			w.set("name", quoteToken(nm)).set("ext", r.chance(1, 12) ? ODD[r.below(5)] : EXT[r.below(4)]).set("dir", r.chance(1, 4) ? std::string("-") : "_w" + std::to_string(r.below(3))).set("cseed", hex64(r.next())).set("len", len)
 			 .set("fmt16", r.chance(1, 4) ? 1 : 0).set("cb", r.chance(1, 2) ? 0 : r.below(65536)).set("pre", r.chance(2, 3) ? 0 : r.range(1, 2)).set("mid", r.chance(2, 3) ? 0 : r.range(1, 2)).set("post", r.chance(1, 2) ? 0 : r.range(1, 3)).set("sp", r.below(7));
 			if (r.chance(1, 10)) w.set("link", 1);
 			if (r.chance(1, 3)) w.set("padlast", 1);
@@ -133,10 +135,10 @@ struct ClmRoundtrip : Family {
 		for (auto& l : plan.world) {
 			if (l.verb != "wav") continue;
 			In in;
-			in.base = l.get("name", "a");
+			in.base = unquoteToken(l.get("name", "a"));
 			std::string rawName = unquoteToken(l.get("rawname", "")); // adaptive phase: an input living at a path the implementation itself uses
 			if (!rawName.empty()) { size_t dot = rawName.rfind('.'); in.base = (dot == std::string::npos || dot == 0) ? rawName : rawName.substr(0, dot); if (rawName.find('/') != std::string::npos) throw std::runtime_error("bad raw wav name"); }
-			else for (char c : in.base) if (!(isalnum(static_cast<unsigned char>(c)) || c == '_')) throw std::runtime_error("bad wav base name");
+			else for (char c : in.base) if (c == '/' || c == 0 || in.base[0] == '_') throw std::runtime_error("bad wav base name");
 			ref::WavSpec w;
 			w.fmt = common;
 			std::string bad = l.get("bad", "");
@@ -161,6 +163,8 @@ struct ClmRoundtrip : Family {
 			std::string dir = l.get("dir", "-");
 			if (dir == "-") dir.clear();
 			std::string fname = !rawName.empty() ? rawName : in.base + (l.get("ext", ".wav") == "-" ? std::string() : l.get("ext", ".wav"));
+			// the member name is the file name without its last extension (a leading dot starts no extension): base names may hold dots
+			{ size_t dot = fname.rfind('.'); in.base = (dot == std::string::npos || dot == 0) ? fname : fname.substr(0, dot); }
 			std::string onDisk = dir.empty() ? fname : dir + "/" + fname;
 			if (!dir.empty()) disk::mkdirs(dir + "/_s");
 			if (l.u("link", 0)) {
